@@ -141,11 +141,11 @@ def render_function(prog, mname, f):
                 for a in pos + kw:
                     lines.append(f"{ind}    {a},")
                 lines.append(f"{ind})")
-                info.append({"line": first, "ref_line": ref_line})
+                info.append({"line": first, "ref_line": ref_line, "eline": len(lines)})
             else:
                 allargs = ", ".join([f'"{st["path"]}"', ref] + pos + kw)
                 lines.append(f"{ind}x{i} = dds.keep({allargs})")
-                info.append({"line": len(lines), "ref_line": len(lines)})
+                info.append({"line": len(lines), "ref_line": len(lines), "eline": len(lines)})
         elif k == "load":
             lines.append(f'{ind}x{i} = dds.load("{st["path"]}")')
             info.append({"line": len(lines)})
@@ -298,7 +298,7 @@ def fn_term(prog, mod, name, depth=0):
         if k == "call":
             seen.add(head)
             args = "[" + "; ".join(coq_expr(f, e) for e in st["args"]) + "]"
-            steps.append(f"SCall {info[i]['line']} {callee} {args}")
+            steps.append(f"SCall {info[i]['line']} {info[i]['line']} {callee} {args}")
         elif k == "ref":
             seen.add(LOGMOD)
             if head not in seen:
@@ -310,7 +310,7 @@ def fn_term(prog, mod, name, depth=0):
             seen.add("dds")
             pos = "[" + "; ".join(f"({coq_expr(f, e)}, {coq_aarg(e)})" for e in st["pos"]) + "]"
             kw = "[" + "; ".join(f"({hexs(n)}, ({coq_expr(f, e)}, {coq_aarg(e)}))" for n, e in st["kw"]) + "]"
-            steps.append(f"SKeep {info[i]['line']} {hexs(st['path'])} {callee} {pos} {kw}")
+            steps.append(f"SKeep {info[i]['line']} {info[i]['eline']} {hexs(st['path'])} {callee} {pos} {kw}")
             if head not in seen:
                 seen.add(head)
                 steps.append(f"SRef {info[i]['ref_line']} {callee} false")
@@ -328,9 +328,11 @@ def fn_term(prog, mod, name, depth=0):
 # ----------------------------------------------------------------------------- random generation
 
 
+# values without the known hash confusions of C05/F03 (no two of them collide); the confusions are exercised by targeted
+# scenarios, where they are reported as known findings
 VAR_VALUES = [V.i_(0), V.i_(5), V.i_(-3), V.i_(2**40), V.s_("hello"), V.s_(""), V.f_(1.5), ["list", [V.i_(1), V.s_("a")]],
-              ["dict", [[V.s_("k"), V.i_(2)]]], ["path", b"a/b".hex()], ["list", []]]
-LIT_VALUES = [V.i_(0), V.i_(7), V.i_(-1), V.s_("z"), V.s_(""), ["none"], ["bool", True], ["bool", False], V.f_(2.5), V.s_("__none__")]
+              ["dict", [[V.s_("k"), V.i_(2)]]], ["path", b"a/b".hex()], ["list", [V.i_(5)]]]
+LIT_VALUES = [V.i_(0), V.i_(7), V.i_(-1), V.s_("z"), V.s_(""), ["none"], ["bool", True], ["bool", False], V.f_(2.5), V.s_("zz")]
 DEFAULTS = [V.i_(3), V.i_(0), V.s_("d"), V.s_(""), ["none"], ["bool", False], ["bool", True]]
 
 
